@@ -14,6 +14,16 @@ class Obj:
         self.owned = True
 
 
+def cbarg_expr(prog, a, av):
+    """Rust expression for an argument Rust passes to a callback / trait method (slices and strings are statics on the Rust side)."""
+    from emit_rust import value_expr
+    if a[0] == "slice":
+        return value_expr(prog, a, ("static", av["items"]))
+    if a[0] == "str":
+        return value_expr(prog, a, ("static", av["data"]))
+    return value_expr(prog, a, av)
+
+
 class Script:
     def __init__(self, prog, rng, lang="c"):
         self.prog = prog
@@ -119,6 +129,14 @@ class Script:
                 ret = None if t[2] == ("unit",) else self.value(t[2], "cbret")
                 inv.append((args, ret))
             return {"cb": self.cb_counter, "inv": inv, "destructor": r.random() < 0.8 or self.lang == "cpp", "null_data": r.random() < 0.3}
+        if k == "tr":
+            self.cb_counter += 1
+            inv = []
+            for _ in range(r.choice([0, 1, 2, 3, 5])):
+                mi = r.randrange(len(t[2]))
+                _, _, margs, mret = t[2][mi]
+                inv.append((mi, [self.value(a, "cbarg") for a in margs], None if mret == ("unit",) else self.value(mret, "cbret")))
+            return {"cb": self.cb_counter, "inv": inv, "destructor": r.random() < 0.8, "null_data": r.random() < 0.3}
         if k == "write":
             nch = r.choice([0, 1, 2, 3, 5, 8])
             chunks = [r.choice(CHUNKS) for _ in range(nch)]
@@ -202,6 +220,8 @@ class Script:
             return "[" + ",".join('"' + "".join("%02x" % x for x in s) + '"' for s in v["strs"]) + "]"
         if k == "cb":
             return "cb"
+        if k == "tr":
+            return "tr"
         if k == "write":
             return "w"
         if k == "unit":
@@ -335,8 +355,16 @@ class Script:
                 cbv = args[pn]
                 for j, (cargs_v, cret) in enumerate(cbv["inv"]):
                     lines.append(("C", "CB %d#%d%s" % (cbv["cb"], j, "".join(" " + self.canon(a, av) for a, av in zip(pt[1], cargs_v)))))
-                    lines.append(("R", "CBRET %s" % ("()" if cret is None else self.canon(pt[2], cret))))
-                    call = "%s(%s)" % (rust_ident(pn), ", ".join(value_expr(self.prog, a, av) for a, av in zip(pt[1], cargs_v)))
+                    lines.append(("R", "CBRET %s" % ("()" if pt[2] == ("unit",) else self.canon(pt[2], cret))))
+                    call = "%s(%s)" % (rust_ident(pn), ", ".join(cbarg_expr(self.prog, a, av) for a, av in zip(pt[1], cargs_v)))
+                    effects.append("let vf_r = %s; crate::vf::log(format!(\"CBRET {}\", crate::vf::c(&vf_r)));" % call)
+            if pt[0] == "tr":
+                trv = args[pn]
+                for j, (mi, targs_v, tret) in enumerate(trv["inv"]):
+                    mname, _, margs, mret = pt[2][mi]
+                    lines.append(("C", "CB %d#%d %s%s" % (trv["cb"], j, mname, "".join(" " + self.canon(a, av) for a, av in zip(margs, targs_v)))))
+                    lines.append(("R", "CBRET %s" % ("()" if mret == ("unit",) else self.canon(mret, tret))))
+                    call = "%s.%s(%s)" % (rust_ident(pn), mname, ", ".join(cbarg_expr(self.prog, a, av) for a, av in zip(margs, targs_v)))
                     effects.append("let vf_r = %s; crate::vf::log(format!(\"CBRET {}\", crate::vf::c(&vf_r)));" % call)
             if pt[0] == "write":
                 for ch in args[pn]["chunks"]:
@@ -351,8 +379,12 @@ class Script:
         created = []
         self.realize_new(m.ret, ret, lines_r := [], created)
         lines += [("R", l) for l in lines_r]
-        for pn, pt in m.params:
-            if pt[0] == "cb" and args[pn]["destructor"]:
+        # Rust drops locals, then parameters, each in reverse declaration order; the generated body rebinds (`let mut p = p;`) the
+        # parameters it calls through &mut (FnMut callbacks, traits with a &mut self method), which makes them locals
+        rebound = lambda pt: (pt[0] == "cb" and pt[3]) or (pt[0] == "tr" and any(mm for _, mm, _, _ in pt[2]))
+        drop_order = [x for x in reversed(m.params) if rebound(x[1])] + [x for x in reversed(m.params) if not rebound(x[1])]
+        for pn, pt in drop_order:
+            if pt[0] in ("cb", "tr") and args[pn]["destructor"]:
                 lines.append(("C", "CBDROP %d" % args[pn]["cb"]))
         wparams = [args[pn] for pn, pt in m.params if pt[0] == "write"]
         if self.lang in ("cpp", "js") and wparams:
